@@ -62,7 +62,7 @@ var c19TrigStrs = []string{"x" + c19BS, c19BS, "a" + c19BS + c19BS, c19BS + "u00
 var c19Floats = []float64{0, 1, -2, 2.5, 1e21, 1e-7, 123456789, -0.125}
 
 func (r *Rng) c19Str() string {
-	if r.chance(0.008) {
+	if r.chance(0.03) {
 		return r.pick(c19TrigStrs)
 	}
 	return r.pick(c19Strs)
@@ -100,58 +100,18 @@ func (r *Rng) c19Map(depth int, top bool) map[string]interface{} {
 	if !top && r.chance(0.1) {
 		n = 0
 	}
-	if top && r.chance(0.012) {
+	if top && r.chance(0.04) {
 		n = 0
 	}
 	m := make(map[string]interface{}, n)
 	for i := 0; i < n; i++ {
 		k := r.pick(c19Keys)
-		if r.chance(0.002) {
+		if r.chance(0.01) {
 			k = r.pick(c19TrigStrs)
 		}
 		m[k] = r.c19Val(depth)
 	}
 	return m
-}
-
-// c19Triggers reports which known-defect shapes occur in the strings (keys and values) of the Maps.
-func c19Triggers(ms []map[string]interface{}) (u003c, trailing, empty bool) {
-	var walk func(v interface{})
-	str := func(s string) {
-		if strings.Contains(s, c19BS+"u003c") || strings.Contains(s, c19BS+"u003e") || strings.Contains(s, c19BS+"u0026") {
-			u003c = true
-		}
-		if strings.HasSuffix(s, c19BS) {
-			trailing = true
-		}
-	}
-	walk = func(v interface{}) {
-		switch x := v.(type) {
-		case string:
-			str(x)
-		case map[string]interface{}:
-			for k, e := range x {
-				str(k)
-				walk(e)
-			}
-		case []interface{}:
-			for _, e := range x {
-				walk(e)
-			}
-		}
-	}
-	for _, m := range ms {
-		if len(m) == 0 {
-			empty = true
-		}
-		walk(m)
-	}
-	return
-}
-
-func c19HasHTML(ms []map[string]interface{}) bool {
-	b, _ := json.Marshal(ms)
-	return bytes.Contains(b, []byte(c19BS+"u003c")) || bytes.Contains(b, []byte(c19BS+"u003e")) || bytes.Contains(b, []byte(c19BS+"u0026"))
 }
 
 // ---------------------------------------------------------------- running the implementation
@@ -532,21 +492,7 @@ func (e *c19Env) fileScenario(in c19Input) bool {
 		e.violation("writer-content", "the file does not hold the per-Map encodings in order", in, fmt.Sprintf("%q", content), fmt.Sprintf("%q", want.Bytes()))
 		return true
 	}
-	u003c, trailing, empty := false, false, false
-	if !xmlKind {
-		u003c, trailing, empty = c19Triggers(ms)
-	}
-	knownKey := func(dflt string) string {
-		switch {
-		case u003c:
-			return "json-u003c-rewrite"
-		case trailing:
-			return "json-string-trailing-backslash"
-		case empty:
-			return "empty-object-skipped"
-		}
-		return dflt
-	}
+	knownKey := func(dflt string) string { return dflt }
 	whole := in.Cut == nil && in.CorAt == nil
 	for i, d := range docs {
 		if d.DErr != nil {
@@ -574,10 +520,10 @@ func (e *c19Env) fileScenario(in c19Input) bool {
 
 	switch {
 	case in.Cut != nil:
-		e.truncated(in, xmlKind, content, docs, expected, *in.Cut, u003c || trailing || empty)
+		e.truncated(in, xmlKind, content, docs, expected, *in.Cut, false)
 		return true
 	case in.CorAt != nil:
-		e.corrupted(in, xmlKind, content, docs, expected, *in.CorAt, byte(*in.CorByte), u003c || trailing || empty)
+		e.corrupted(in, xmlKind, content, docs, expected, *in.CorAt, byte(*in.CorByte), false)
 		return true
 	}
 
@@ -623,7 +569,7 @@ func (e *c19Env) fileScenario(in c19Input) bool {
 	}
 	if readsOK {
 		st := find(off)
-		if st == nil || st.Err != "eof" || len(st.M) > 0 {
+		if st == nil || st.Err != "eof" || st.M != nil {
 			readsOK = false
 		}
 	}
@@ -731,7 +677,7 @@ func c19HypEval(docs []c19Doc, steps []c19Step) (bool, bool) {
 			return false
 		}
 		if i == len(docs) {
-			return st.Err == "eof" && len(st.M) == 0
+			return st.Err == "eof" && st.M == nil
 		}
 		d := docs[i]
 		var dec map[string]interface{}
@@ -836,11 +782,7 @@ func (e *c19Env) corrupted(in c19Input, xmlKind bool, content []byte, docs []c19
 	want := fmt.Sprintf("first %d Maps: %s; malformed=%v => error", i, c19CanonList(expected[:i]), malformed)
 	switch {
 	case o.Panicked:
-		key := "corrupted-panic"
-		if !xmlKind && strings.Contains(o.PanicMsg, "nil pointer") {
-			key = "json-stray-close-brace-panic"
-		}
-		e.violation(key, "reading a malformed file panicked instead of returning an error with the Maps read so far", in, o.text(), want)
+		e.violation("corrupted-panic", "reading a malformed file panicked instead of returning an error with the Maps read so far", in, o.text(), want)
 	case o.Nil:
 		e.violation("corrupted-nil", "a malformed file yields a nil slice instead of the Maps read so far", in, o.text(), want)
 	case len(o.Maps) < i || c19CanonList(o.Maps[:i]) != c19CanonList(expected[:i]):
@@ -863,8 +805,6 @@ func (e *c19Env) corrupted(in c19Input, xmlKind bool, content []byte, docs []c19
 			case nb == '"' && k <= sepLen:
 				// a double quote before the opening brace of a document: the scanner is inside a string from there on
 				key = "json-quote-outside-document-drops-maps"
-			case c19ClosingQuoteAfterBackslash(cor):
-				key = "json-string-trailing-backslash"
 			case c19LeadingDocsReturned(cor, o.Maps):
 				// every document before the first byte encoding/json rejects is returned; the rest is skipped silently
 				key = "json-junk-outside-documents-ignored"
@@ -874,33 +814,7 @@ func (e *c19Env) corrupted(in c19Input, xmlKind bool, content []byte, docs []c19
 	}
 }
 
-// c19ClosingQuoteAfterBackslash: some JSON string literal of b ends in an escaped backslash, i.e. its closing
-// quote directly follows a backslash (the shape getJson takes for an escaped quote).
-func c19ClosingQuoteAfterBackslash(b []byte) bool {
-	in := false
-	for i := 0; i < len(b); i++ {
-		c := b[i]
-		if !in {
-			if c == '"' {
-				in = true
-			}
-			continue
-		}
-		if c == '\\' {
-			i++
-			if i+1 < len(b) && b[i] == '\\' && b[i+1] == '"' {
-				return true
-			}
-			continue
-		}
-		if c == '"' {
-			in = false
-		}
-	}
-	return false
-}
-
-// c19LeadingDocsReturned: the non-empty objects encoding/json decodes from the front of b, up to the first byte it
+// c19LeadingDocsReturned: the objects encoding/json decodes from the front of b, up to the first byte it
 // rejects, are the first Maps returned.
 func c19LeadingDocsReturned(b []byte, got []map[string]interface{}) bool {
 	d := json.NewDecoder(bytes.NewReader(b))
@@ -913,9 +827,6 @@ func c19LeadingDocsReturned(b []byte, got []map[string]interface{}) bool {
 		m, ok := v.(map[string]interface{})
 		if !ok {
 			return true
-		}
-		if len(m) == 0 {
-			continue
 		}
 		if n >= len(got) || canon(got[n]) != canon(m) {
 			return false
@@ -1130,28 +1041,41 @@ func c19MutateAll(v interface{}) {
 
 func (e *c19Env) copyCase(in c19Input, m map[string]interface{}) {
 	orig := canon(m)
-	mar, merr := json.Marshal(m)
-	// Json(safe) against the rewrite model
+	// what a json.Encoder writes for the Map with the HTML escaping on / off (the parameter encode of the model)
+	encOut := func(esc bool) ([]byte, error) {
+		var buf bytes.Buffer
+		en := json.NewEncoder(&buf)
+		en.SetEscapeHTML(esc)
+		err := en.Encode(m)
+		return buf.Bytes(), err
+	}
 	for _, safe := range []bool{false, true} {
 		var j []byte
+		var jerr error
 		if safe {
-			j, _ = mxj.Map(m).Json(true)
+			j, jerr = mxj.Map(m).Json(true)
 		} else {
-			j, _ = mxj.Map(m).Json()
+			j, jerr = mxj.Map(m).Json()
 		}
-		if merr == nil {
-			e.add(fmt.Sprintf("CJson %s %s %s", coqStr(string(mar)), coqBool(safe), coqStr(string(j))), in, fmt.Sprintf("%q", j), !bytes.Equal(j, mar))
-			e.count(fmt.Sprintf("json:safe=%v:rewritten=%v", safe, !bytes.Equal(j, mar)))
+		eo, eerr := encOut(safe)
+		if eerr == nil && jerr == nil {
+			e.add(fmt.Sprintf("CJson %s %s %s", coqStr(string(eo)), coqBool(safe), coqStr(string(j))), in, fmt.Sprintf("%q", j), bytes.ContainsAny(j, "<>&"+c19BS))
+			e.count(fmt.Sprintf("json:safe=%v:html-or-backslash=%v", safe, bytes.ContainsAny(j, "<>&"+c19BS)))
 		}
 	}
+	eo, eerr := encOut(false)
+	encTerm := "None"
+	if eerr == nil {
+		encTerm = "(Some " + coqStr(string(eo)) + ")"
+	}
 	jarg, _ := mxj.Map(m).Json()
-	// what the stdlib decoder says about the bytes Copy hands to it
+	// what the stdlib decoder says about the bytes Copy hands to it: the first value, whatever its kind
 	decTerm, decText := "DErr", "error"
 	{
-		var dm map[string]interface{}
+		var dv interface{}
 		d := json.NewDecoder(bytes.NewReader(jarg))
-		if err := d.Decode(&dm); err == nil {
-			decTerm, decText = "(DOk "+coqVal(dm)+")", canon(dm)
+		if err := d.Decode(&dv); err == nil {
+			decTerm, decText = "(DOk "+coqVal(dv)+")", canon(dv)
 		} else {
 			decText = "error: " + err.Error()
 		}
@@ -1175,15 +1099,11 @@ func (e *c19Env) copyCase(in c19Input, m map[string]interface{}) {
 		out = "(DOk " + coqVal(map[string]interface{}(cp)) + ")"
 	}
 	impl := fmt.Sprintf("Copy: %s err=%v (decoder on Json(): %s)", canon(map[string]interface{}(cp)), cerr, decText)
-	e.add(fmt.Sprintf("CCopy %s %s %s %s %s", coqStr(string(mar)), coqBool(merr != nil), coqStr(string(jarg)), decTerm, out), in, impl, len(m) > 1)
+	e.add(fmt.Sprintf("CCopy %s %s %s %s", encTerm, coqStr(string(jarg)), decTerm, out), in, impl, len(m) > 1)
 	e.count("copy")
 	e.say("%s", impl)
 	e.oracle()
-	u003c, _, _ := c19Triggers([]map[string]interface{}{m})
 	key := "copy-differs"
-	if u003c {
-		key = "json-u003c-rewrite"
-	}
 	switch {
 	case panicked != "":
 		e.violation("copy-panic", "Copy panicked", in, panicked, orig)
@@ -1258,9 +1178,9 @@ func runC19(cfg runCfg) error {
 	r := newRng(cfg.seed)
 	run := newRun("C19", cfg.out, cfg.seed, cfg.shards, c19Header, "fcase",
 		"lists of 1-4 Maps: XML domain = NewMapXml of random documents (depth<=2, attributes, mixed text, specials) under random symmetric decoder options with value escaping on; "+
-			"JSON domain = random Maps (non-null scalars, nested maps/lists, keys and string values with braces, quotes, backslashes, control and non-ASCII characters; 3% defect-trigger strings, 3% empty Map) "+
+			"JSON domain = random Maps (non-null scalars, nested maps/lists, keys and string values with braces, quotes, backslashes, control and non-ASCII characters; 3% strings ending in a backslash or containing backslash-u003c, 4% empty Maps) "+
 			"x 4 writers x 5 prefixes x 6 indents; every file read back with both readers, cut at every byte (<= 48 bytes; all cuts judged by the oracle, about 8 per file printed for the Coq side) or at boundaries+-1 and random points, corrupted at random bytes; "+
-			"unreadable paths; Gob/NewMapGob, Copy (+ aliasing), Json rewrite, getJson scanner; non-trivial = more than one Map / entry; distinct by input hash")
+			"unreadable paths; Gob/NewMapGob, Copy (+ aliasing), Json vs the encoder output, getJson scanner; non-trivial = more than one Map / entry; distinct by input hash")
 	if err := os.MkdirAll("/verif/build", 0o755); err != nil {
 		return err
 	}
@@ -1283,7 +1203,7 @@ func runC19(cfg runCfg) error {
 		return "(DOk " + coqVal(map[string]interface{}(m)) + ")"
 	}(), c19Input{Kind: "gob"}, "NewMapGob(nil)", false)
 
-	// fixed scenarios first: one per known shape, and plain ones
+	// fixed scenarios first: plain ones, and one per shape the pinned tree could not handle
 	fixed := []c19Input{
 		{Kind: "json", Maps: []map[string]interface{}{{"a": "x"}, {"b": map[string]interface{}{"c": []interface{}{1.0, "}{"}}}}},
 		{Kind: "jsonindent", Indent: "  ", Maps: []map[string]interface{}{{"a": "x"}, {"b": "y"}}},
@@ -1303,9 +1223,9 @@ func runC19(cfg runCfg) error {
 		}
 	}
 	for _, fc := range []struct {
-		in  c19Input
-		at  int
-		nb  int
+		in c19Input
+		at int
+		nb int
 	}{
 		{fixed[0], 9, '}'}, {fixed[0], 9, '"'}, {fixed[1], 14, '"'}, {fixed[1], 14, 'x'}, {fixed[1], 14, '}'}, {fixed[5], 3, '/'},
 	} {
